@@ -71,13 +71,14 @@ ReplyKind(o) == CASE o = "rt_same" -> "rt" [] o = "rt_other" -> "rt"
 Violation(p, what, r) == [p |-> p, what |-> what, r |-> r]
 Flag(ok, p, what, r) == IF ok THEN bad ELSE (IF Len(bad) < 400 THEN Append(bad, Violation(p, what, r)) ELSE bad)
 
-AliveGood(h) == {b \in DOMAIN conn : conn[b].h = h /\ conn[b].alive /\ ~conn[b].fresh}
-\* a host is shaky when not every pool slot is known to hold a usable connection
-Shaky(h) == Cardinality(AliveGood(h)) < NumConns
+\* connections belong to a session (protocol version / compression / keyspace); a request only uses its session's pools
+AliveGood(h, ss) == {b \in DOMAIN conn : conn[b].h = h /\ conn[b].sess = ss /\ conn[b].alive /\ ~conn[b].fresh}
+\* a host is shaky (for a session) when not every pool slot is known to hold a usable connection
+Shaky(h, ss) == Cardinality(AliveGood(h, ss)) < NumConns
 Outstanding(b) == {x \in out : x.b = b}
 
-NewReq(c, s, idem, op, cached, tok) ==
-    [c |-> c, s |-> s, idem |-> idem, op |-> op, cached |-> cached, tok |-> tok,
+NewReq(c, s, idem, op, cached, tok, ss) ==
+    [c |-> c, s |-> s, idem |-> idem, op |-> op, cached |-> cached, tok |-> tok, sess |-> ss,
      ph |-> "exec",            \* exec: the proxy owes a move; wait: an attempt is outstanding; done
      must |-> {"next"},        \* allowed moves: next, same, prep, reply_<kind>
      retry |-> 0,
@@ -99,14 +100,14 @@ NewReq(c, s, idem, op, cached, tok) ==
 
 -----------------------------------------------------------------------------
 (* Environment: client submits a request.                                          *)
-DoSubmit(r, c, s, idem, op, cached, tok) ==
-    /\ rq' = (r :> NewReq(c, s, idem, op, cached, tok)) @@ rq
+DoSubmit(r, c, s, idem, op, cached, tok, ss) ==
+    /\ rq' = (r :> NewReq(c, s, idem, op, cached, tok, ss)) @@ rq
     /\ bad' = Flag(r \notin DOMAIN rq, "HARNESS", "request id reused", r)
     /\ UNCHANGED <<conn, out>>
 
 (* Harness knowledge: a backend connection finished its handshake.                 *)
-DoConn(b, h, initial) ==
-    /\ conn' = (b :> [h |-> h, alive |-> TRUE, fresh |-> ~initial]) @@ conn
+DoConn(b, h, initial, ss) ==
+    /\ conn' = (b :> [h |-> h, alive |-> TRUE, fresh |-> ~initial, sess |-> ss]) @@ conn
     /\ UNCHANGED <<rq, out, bad>>
 
 (* Proxy move: backend h takes an attempt of r on connection b.                    *)
@@ -154,9 +155,11 @@ DoTake(r, h, b, bs, op) ==
                           !.natt = IF isprep THEN q.natt ELSE q.natt + 1]]
     /\ conn' = [conn EXCEPT ![b].fresh = FALSE]
     /\ out' = out \cup {[r |-> r, b |-> b, bs |-> bs, op |-> IF isprep THEN "prep" ELSE "req"]}
-    /\ bad' = Flag(legal /\ c04ok /\ streamFree /\ conn[b].alive /\ conn[b].h = h,
-                   IF ~(conn[b].alive /\ conn[b].h = h) THEN "HARNESS" ELSE IF ~streamFree THEN "C02" ELSE why,
-                   IF ~streamFree THEN "request written to the backend under a stream id that is still in use on that connection"
+    /\ bad' = Flag(legal /\ c04ok /\ streamFree /\ conn[b].alive /\ conn[b].h = h /\ conn[b].sess = q.sess,
+                   IF ~(conn[b].alive /\ conn[b].h = h) THEN "HARNESS" ELSE IF conn[b].sess # q.sess THEN "C07"
+                   ELSE IF ~streamFree THEN "C02" ELSE why,
+                   IF conn[b].sess # q.sess THEN "request forwarded on a connection of another session (version/compression/keyspace)"
+                   ELSE IF ~streamFree THEN "request written to the backend under a stream id that is still in use on that connection"
                    ELSE IF ~c04ok THEN "non-idempotent request re-sent after an outcome that may have applied it"
                    ELSE IF q.nrep > 0 THEN "request sent to a backend after the client was answered"
                    ELSE IF isprep THEN "unexpected re-prepare"
@@ -228,7 +231,7 @@ DoSendFail(r, h, why) ==
         /\ bad' = Flag(FALSE, "HARNESS", "sendfail for unknown request", r) /\ UNCHANGED <<rq, conn, out>>
     ELSE
     LET justified == IF why = "streams" THEN \E b \in DOMAIN conn : conn[b].h = h /\ Cardinality(Outstanding(b)) >= StreamLimit
-                     ELSE Shaky(h)
+                     ELSE Shaky(h, q.sess)
         asNext == q.ph = "exec" /\ TakeIsNext(q, h)
         asSame == q.ph = "exec" /\ TakeIsSame(q, h) /\ ~asNext
         asPrep == q.ph = "exec" /\ "prep" \in q.must /\ h = q.cur
@@ -261,7 +264,7 @@ DoOnClose(r, h) ==
                 IF asNext THEN [q EXCEPT !.tried = Append(q.tried, h), !.cur = h, !.must = OnCloseMoves(q), !.ans = NONE]
                 ELSE IF asSame THEN [q EXCEPT !.must = OnCloseMoves(q), !.ans = NONE]
                 ELSE q]
-    /\ bad' = Flag(~(asNext \/ asSame) \/ Shaky(h) \/ q.fork, "C05", "request notified of a closed connection on a host whose connections are all up", r)
+    /\ bad' = Flag(~(asNext \/ asSame) \/ Shaky(h, q.sess) \/ q.fork, "C05", "request notified of a closed connection on a host whose connections are all up", r)
     /\ UNCHANGED <<conn, out>>
 
 (* Proxy move: the client receives a frame on (c, s).  r is the request the frame  *)
